@@ -135,6 +135,19 @@ def run(records: list[dict], shard: int = 30) -> list[dict]:
 SCRIPT_HEADER = "From SV Require Import Tree.Script.\nOpen Scope string_scope."
 
 
+def summary(lr) -> str:
+    """what a user sees: source / target / intermediate tables and end-to-end column pairs"""
+    src = sorted(str(t) for t in lr.source_tables)
+    tgt = sorted(str(t) for t in lr.target_tables)
+    mid = sorted(str(t) for t in lr.intermediate_tables)
+    pairs = set()
+    for p in lr.get_column_lineage():
+        s, t = p[0], p[-1]
+        ss = str(s) if s.parent is not None else s.raw_name + "{" + ",".join(sorted(str(c) for c in s.parent_candidates)) + "}"
+        pairs.add(ss + ">" + str(t))
+    return "R=%s;W=%s%s#%s" % (",".join(src), ",".join(tgt), (";I=" + ",".join(mid)) if mid else "", ";".join(sorted(pairs)))
+
+
 def analyse_script(rec: dict) -> dict:
     warnings.filterwarnings("ignore")
     import logging
@@ -190,6 +203,7 @@ def analyse_script(rec: dict) -> dict:
                     implgraph.s_paths(sh.get_column_lineage(True, True), True)])
                 out["stats"] = {"statements": len(holders), "nodes": sh.graph.number_of_nodes(),
                                 "multi_rename": any(len(h.rename) > 1 for h in holders)}
+                out["summary"] = summary(lr)
             except Exception as e:
                 out["impl"] = "ERR:" + type(e).__name__
                 out["stats"] = {"statements": len(tap.of_runner(lr)), "nodes": 0, "multi_rename": False}
